@@ -301,7 +301,7 @@ def _replay(ctx):
                 r, problems = _run_inbound(ctx.rng, sizes, (0, "none"), [total // 3, total - total // 3])
                 if r["dead"] or (r["deliv"] and r["deliv"][-1] != nfr):
                     problems.append(f"a clean stream of {nfr} frames: {r['deliv'][-1] if r['deliv'] else 0} frames decrypted, session dead={r['dead']}")
-                return [(r, problems)]
+                return [({"kind": "long-in", "nfr": nfr}, problems)]
             if rec.get("c0", 0) > 16:
                 # a request late in a long session: run a session that long
                 return (await _outbound([7] * (int(rec["c0"]) + 2), ctx.rng))[-3:]
@@ -311,7 +311,8 @@ def _replay(ctx):
         out = loop.run_until_complete(go())
         recs = []
         for r, problems in out:
-            recs.append(r)
+            if r.get("kind") in ("in", "out"):
+                recs.append(r)
             ctx.case(json.dumps(r))
             for pr in problems:
                 ctx.violation(f"replay: {pr}", r)
@@ -319,13 +320,14 @@ def _replay(ctx):
         with open(tf, "w") as f:
             for r in recs:
                 f.write(json.dumps(r) + "\n")
-        res = ctx.tlc("session/SecureFraming_Trace", "SecureFraming_Trace.cfg", env={"TRACE_FILE": tf}, expect_violation=True,
-                      require_cover=False, coverage=False, label="replay: trace validation")
-        if not res.ok:
-            ctx.violation(f"replayed record is not a behaviour of SecureFraming ({res.violation['name']})", {"records": recs})
-        else:
-            ctx.trace_ok(len(recs))
-        ctx.sample({"replayed": recs[0]})
+        if recs:
+            res = ctx.tlc("session/SecureFraming_Trace", "SecureFraming_Trace.cfg", env={"TRACE_FILE": tf}, expect_violation=True,
+                          require_cover=False, coverage=False, label="replay: trace validation")
+            if not res.ok:
+                ctx.violation(f"replayed record is not a behaviour of SecureFraming ({res.violation['name']})", {"records": recs})
+            else:
+                ctx.trace_ok(len(recs))
+            ctx.sample({"replayed": recs[0]})
     finally:
         loop.close()
         asyncio.set_event_loop(None)
